@@ -161,6 +161,19 @@ class Ctx:
             return {u: objs[u] for u in units}, flags
 
 
+# Loops of the library that walk implementation / format tables: they need large bounds, while
+# everything else in an API-level harness is bounded by the (tiny) image geometry.
+API_UNWINDSET = (
+    "_pixman_implementation_create.0:66",
+    "_pixman_implementation_lookup_composite.0:400", "_pixman_implementation_lookup_composite.1:400",
+    "_pixman_implementation_lookup_composite.2:400", "_pixman_implementation_lookup_composite.3:400",
+    "_pixman_implementation_iter_init.0:80", "_pixman_implementation_iter_init.1:80",
+    "_pixman_implementation_lookup_combiner.0:8", "_pixman_implementation_fill.0:8", "_pixman_implementation_blt.0:8",
+    "setup_accessors.0:64", "setup_accessors$link1.0:64", "_pixman_choose_implementation.0:8",
+    "_pixman_bits_image_src_iter_init.0:60",
+)
+
+
 class Inst:
     """One solver query family: a harness file with a concrete -D set."""
 
@@ -435,6 +448,9 @@ def run_instance(ctx, inst):
         if not reached:
             if w["status"] == "success" or any(classify(p) == "witness" for p in w["props"]):
                 r.verdict, r.note = "vacuous", "witness assertion unreachable: harness is vacuous"
+                if not to:
+                    uf = [p.get("property") for p in parse_cbmc(out)["props"] if classify(p) == "unwind" and p.get("status") == "FAILURE"]
+                    r.note += " (unwinding assertions failing in the property run: %s)" % uf[:6]
             else:
                 r.verdict, r.note = "error", "witness run failed: rc=%s %s %s" % (wrc, w["errors"][:2], werr[-500:])
             return r
